@@ -329,7 +329,7 @@ def run(ctx):
             4, 512.0, 0.5, -0.0, 1e154, 1.3407807929942597e154, 2 ** 53,
             2 ** 62, 10 ** 20, 709.79, 1e15, 1.0000000000000002, 3]
     if thorough:
-        edge += [ctx.rng.choice([1, -1]) * 10 ** ctx.rng.uniform(-320, 308.5)
+        edge += [ctx.rng.choice([1, -1]) * 10 ** ctx.rng.uniform(-320, 308.2)
                  for _ in range(40)]
         edge = [v for v in edge if v == v and abs(v) != float('inf')]
     second = [('OP_MUL', '*', 1.5), ('OP_ADD', '+', 0.5), ('OP_DIV', '/', 3),
